@@ -186,6 +186,13 @@ class Metacommand:
         for operand in insn_operands:
             # Stupid pylint doesn't know that decorators can mutate types
             # pylint: disable=isinstance-second-argument-not-valid-type
+            if isinstance(operand, CodeBlock):
+                reports.error(
+                    "wrong-meta-operands",
+                    (operand.ctx_start, operand.ctx_end, f"A code block is not expected here by '{insn.name.name}'"),
+                    (insn.name.ctx_start, insn.name.ctx_end, "Metacommand started here")
+                )
+                raise reports.RecoverableError("Unexpected code block")
             if isinstance(operand, operators.immediate):
                 reports.error(
                     "excess-hash",
